@@ -284,23 +284,32 @@ def handbuilt_records(pa, rng, count):
             continue
         kind, d = random_dissim(pa, rng, c)
         anns = list(c.annotators)
-        pools = {a: list(c[a]) for a in anns}
+        # uncapped-enough table: hand-built tuples may pair units far above the pruning threshold
+        D, de_int = ar.observe_table(pa, c, d, R_SCALE, cap_factor=1 << 21)
+        units = ar.units_by_annotator(c)
+        pools = {a: list(range(len(units[i]))) for i, a in enumerate(anns)}
         for a in anns:
             rng.shuffle(pools[a])
         uas = []
         while any(pools.values()):
-            tup = []
-            for a in anns:
-                if pools[a] and rng.random() < 0.7:
-                    tup.append((a, pools[a].pop()))
+            tup, members = [], []
+            for ai, a in enumerate(anns):
+                ok = bool(pools[a]) and rng.random() < 0.7
+                if ok:
+                    i = pools[a][-1]
+                    for (bi, j) in members:      # keep every pair value below the cap so the integers stay exact
+                        if D[min(ai, bi)][max(ai, bi)][j if bi < ai else i][i if bi < ai else j] >= (1 << 21):
+                            ok = False
+                if ok:
+                    pools[a].pop()
+                    members.append((ai, i))
+                    tup.append((a, units[ai][i]))
                 else:
                     tup.append((a, None))
             if all(u is None for _, u in tup):
                 continue
             rng.shuffle(tup)        # slots listed in any order
-            ua = pa.UnitaryAlignment(tup)
-            uas.append(ua)
-        D, de_int = ar.observe_table(pa, c, d, R_SCALE)
+            uas.append(pa.UnitaryAlignment(tup))
         for attach in (True, False):
             al = pa.Alignment([pa.UnitaryAlignment(list(u.n_tuple)) for u in uas], c if attach else None)
             al.compute_disorder(d)
